@@ -7,7 +7,7 @@ the offset; column = 1 + number of UTF-8 leading bytes between the start of that
 listed as an assumption); None iff offset > len.
 """
 PARSER = "crates/apollo-compiler/src/parser.rs"
-OUTER = "use vstd::string::StringSliceAdditionalSpecFns;"
+OUTER = "use vstd::string::StringSliceAdditionalSpecFns;\nuse vstd::std_specs::convert::*;"
 PRELUDE = r'''
 pub assume_specification[ String::as_bytes ](s: &String) -> (r: &[u8])
     ensures r@ == vstd::utf8::encode_utf8(s@);
@@ -39,6 +39,37 @@ pub open spec fn leading_between(b: Seq<u8>, lo: int, hi: int) -> nat decreases 
 '''
 
 LC_IS = r'''
+// ---- SourceSpan and the source map (shims: rowan's TextSize / TextRange are u32 offsets; the map is Arc<IndexMap<FileId, Arc<SourceFile>>>) ----
+#[derive(Clone, Copy)]
+pub struct FileId { pub id: u64 }
+#[derive(Clone, Copy)]
+pub struct TextSize { pub raw: u32 }
+impl From<TextSize> for usize {
+    #[verifier::external_body]
+    fn from(v: TextSize) -> (r: usize) { unimplemented!() }
+}
+impl FromSpecImpl<TextSize> for usize {
+    open spec fn obeys_from_spec() -> bool { true }
+    open spec fn from_spec(v: TextSize) -> usize { v.raw as usize }
+}
+#[derive(Clone, Copy)]
+pub struct TextRange { pub lo: u32, pub hi: u32 }
+impl TextRange {
+    pub fn start(self) -> (r: TextSize) ensures r.raw == self.lo { TextSize { raw: self.lo } }
+    pub fn end(self) -> (r: TextSize) ensures r.raw == self.hi { TextSize { raw: self.hi } }
+}
+#[derive(Clone, Copy)]
+pub struct SourceSpan { pub file_id: FileId, pub text_range: TextRange }
+#[verifier::external_body]
+pub struct SourceMap { x: u8 }
+impl SourceMap {
+    pub uninterp spec fn view(&self) -> Map<u64, SourceFile>;
+    #[verifier::external_body]
+    pub fn get(&self, k: &FileId) -> (r: Option<&SourceFile>)
+        ensures match r { Some(f) => self@.dom().contains(k.id) && *f == self@[k.id], None => !self@.dom().contains(k.id) }
+    { unimplemented!() }
+}
+
 pub open spec fn lc_is(lc: LineColumn, b: Seq<u8>, offset: int) -> bool {
     lc.line == 1 + terminators_before(b, offset) && lc.column == 1 + leading_between(b, line_start(b, offset), offset)
 }
@@ -79,6 +110,22 @@ UNIT = {
                  ("ensures", "both_ends_by_the_same_rule", "r is Some ==> lc_is(r->0.start, B(self), range.start as int) && lc_is(r->0.end, B(self), range.end as int)"),
              ],
              props=["C11"]),
+
+        dict(file=PARSER, kind="fn", name="offset", container="SourceSpan", container_name="SourceSpan", wrap="impl SourceSpan", props=["C11"],
+             clauses=[("ensures", "start_of_the_range", "r == self.text_range.lo")]),
+        dict(file=PARSER, kind="fn", name="end_offset", container="SourceSpan", container_name="SourceSpan", wrap="impl SourceSpan", props=["C11"],
+             clauses=[("ensures", "end_of_the_range", "r == self.text_range.hi")]),
+        dict(file=PARSER, kind="fn", name="line_column", container="SourceSpan", container_name="SourceSpan", wrap="impl SourceSpan", props=["C11"],
+             clauses=[("requires", "texts_shorter_than_usize_max", "forall|k: u64| #[trigger] sources@.dom().contains(k) ==> B(&sources@[k]).len() < usize::MAX"),
+                      ("ensures", "position_of_the_start_offset_in_the_spans_own_file",
+                       "r is Some <==> (sources@.dom().contains(self.file_id.id) && self.text_range.lo <= B(&sources@[self.file_id.id]).len())"),
+                      ("ensures", "by_the_LineTerminator_rule", "r is Some ==> lc_is(r->0, B(&sources@[self.file_id.id]), self.text_range.lo as int)")]),
+        dict(file=PARSER, kind="fn", name="line_column_range", container="SourceSpan", container_name="SourceSpan", wrap="impl SourceSpan", props=["C11"],
+             rewrites=[("Option<Range<LineColumn>>", "Option<core::ops::Range<LineColumn>>", 1)],
+             clauses=[("requires", "texts_shorter_than_usize_max", "forall|k: u64| #[trigger] sources@.dom().contains(k) ==> B(&sources@[k]).len() < usize::MAX"),
+                      ("ensures", "positions_of_both_ends_in_the_spans_own_file",
+                       "r is Some <==> (sources@.dom().contains(self.file_id.id) && self.text_range.lo <= B(&sources@[self.file_id.id]).len() && self.text_range.hi <= B(&sources@[self.file_id.id]).len())"),
+                      ("ensures", "by_the_LineTerminator_rule", "r is Some ==> lc_is(r->0.start, B(&sources@[self.file_id.id]), self.text_range.lo as int) && lc_is(r->0.end, B(&sources@[self.file_id.id]), self.text_range.hi as int)")]),
         r'''
 // ---------------- sanity of the specification ----------------
 proof fn linecol_spec_examples()
